@@ -186,6 +186,22 @@ def check_jsonl(c, st):
                     pass
             res[(mode, rev)] = got
             want = ('ok', list(reversed(objs)) if rev else objs)
+            if c.get('strict'):
+                # same file read without ignore_errors: the corrupt line must surface as an error, not as data
+                fo2 = open(path, mode, **kw)
+                try:
+                    strict = outcome(lambda: list(ju.JSONLIterator(fo2, ignore_errors=False, reverse=rev)))
+                finally:
+                    try:
+                        fo2.close()
+                    except Exception:
+                        pass
+                has_corrupt = any(i[0].startswith('corrupt') for i in c['items'])
+                if has_corrupt and strict[0] == 'ok':
+                    return ('jsonl:corrupt-line-accepted', 'without ignore_errors a file with corrupt lines was read '
+                            'without error: %s' % repr(strict)[:200])
+                if not has_corrupt and strict != want:
+                    return ('jsonl:strict-differs', 'ignore_errors=False gives %s' % repr(strict)[:200])
             if got != want:
                 return ('jsonl:%s:%s' % ('reverse' if rev else 'forward', 'text' if mode == 'r' else 'binary'),
                         'JSONLIterator(%s, reverse=%r) over %d bytes gave %s, want %d objects (layout %r)'
@@ -262,12 +278,14 @@ def gen(r):
                 items.append(['corrupt-bytes'])     # a record cut in the middle of a multi-byte character
                 size += 14
             else:
-                items.append(['corrupt', r.choice(['{bad json', 'nope', '{"a": ', '[1, 2', '{"s": "\u2028'])])
+                items.append(['corrupt', r.choice(['{bad json', 'nope', '{"a": ', '[1, 2', '{"s": "\u2028',
+                                                   '{"a": 1}{"b": 2}', '{"a": 1}}', '12 monkeys', 'null pointer',
+                                                   '[1, 2], 3', '"s" "t"', '{"a": 1},'])])
                 size += 8
         if target == 0:
             break
     return {'kind': 'jsonl', 'items': items, 'eol': r.choice(['\n', '\n', '\r\n']), 'trailing': r.random() < 0.7,
-            'ignore_errors': ignore, 'align': r.random() < 0.35}
+            'ignore_errors': ignore, 'align': r.random() < 0.35, 'strict': r.random() < 0.5}
 
 
 def shrink(case, fails):
